@@ -179,16 +179,16 @@ def compare_dump(v, scope, dump, zones_map, rules_map, tag, counters):
 
 
 def canon(text):
+    """Code only: comments (// ... and /* ... */, which hold the invocation, memory statistics and field labels) are
+    dropped, so that a reworded comment template is not mistaken for a changed table.  The source-line comments are
+    what the regeneration starts from, so they are covered by construction."""
+    text = re.sub(r"/\*.*?\*/", "", text, flags=re.S)
     out = []
     for ln in text.splitlines():
-        if ln.startswith("//   $"):
-            continue
-        s = ln.strip()
-        if s.startswith("//"):
-            s = " ".join(s.split())
-        else:
-            s = ln.rstrip()
-        out.append(s)
+        s = ln.split("//", 1)[0]
+        s = " ".join(s.split())
+        if s:
+            out.append(s)
     return out
 
 
@@ -320,7 +320,7 @@ def run(tier):
                 "and up to 31 multi-character letters per policy; the generated tables are compiled and every field is read back "
                 "through ZoneInfo/ZoneEra/ZonePolicy/ZoneRule brokers (codec driver, ASan+UBSan) and compared with the value given. "
                 "(B) tzcompiler.py (subprocess, recorded flags) is run on the lines recorded beside the shipped zonedb/zonedbx tables: "
-                "text comparison (comment whitespace collapsed, invocation line ignored) and field-by-field broker comparison of the "
+                "text comparison of the code (all comments stripped) and field-by-field broker comparison of the "
                 "shipped tables with the transformer's output; transitionBufSize vs the estimator. distinct = distinct (field, value) "
                 "pairs decoded.",
         "samples": samples[:6],
